@@ -217,44 +217,63 @@ func condDelta(want, got *Node) string {
 	return "conditions-altered"
 }
 
-// charClasses summarises which kinds of characters a value contains (for signature keys: the class
-// of inputs, never the input).
+// charClasses names the single most quoting-relevant class of characters a value contains (for
+// signature keys: the class of inputs, never the input; one label per value keeps the key domain
+// small).
 func charClasses(v string) string {
 	if v == "" {
 		return "empty"
 	}
-	set := map[string]bool{}
+	has := map[string]bool{}
 	for _, r := range v {
 		switch {
 		case r == '"':
-			set["quote"] = true
+			has["quote"] = true
 		case r == '\\':
-			set["backslash"] = true
+			has["backslash"] = true
 		case r == ' ' || r == '\t':
-			set["space"] = true
+			has["space"] = true
 		case r == '(' || r == ')':
-			set["paren"] = true
+			has["paren"] = true
 		case strings.ContainsRune("=!~<>", r):
-			set["operator"] = true
+			has["operator"] = true
 		case r == utf8.RuneError:
-			set["invalid-utf8"] = true
+			has["invalid-utf8"] = true
 		case r < 0x20 || r == 0x7f || !unicode.IsPrint(r):
-			set["unprintable"] = true
+			has["unprintable"] = true
 		case r > 0x7f:
-			set["non-ascii"] = true
+			has["non-ascii"] = true
 		case r >= '0' && r <= '9':
-			set["digit"] = true
+			has["digit"] = true
 		default:
-			set["plain"] = true
+			has["plain"] = true
 		}
 	}
-	var ks []string
-	for _, k := range []string{"quote", "backslash", "space", "paren", "operator", "unprintable", "non-ascii", "invalid-utf8", "digit", "plain"} {
-		if set[k] {
-			ks = append(ks, k)
-		}
+	switch {
+	case has["invalid-utf8"]:
+		return "invalid-utf8"
+	case has["unprintable"]:
+		return "unprintable"
+	case has["quote"] && has["backslash"]:
+		return "quote+backslash"
+	case has["backslash"]:
+		return "backslash"
+	case has["quote"]:
+		return "quote"
+	case strings.TrimSpace(v) != v:
+		return "leading-or-trailing-space"
+	case has["space"]:
+		return "inner-space"
+	case has["paren"]:
+		return "paren"
+	case has["operator"]:
+		return "operator"
+	case has["non-ascii"]:
+		return "non-ascii"
+	case has["digit"] && !has["plain"]:
+		return "digits"
 	}
-	return strings.Join(ks, "+")
+	return "plain"
 }
 
 // backslashTailBeforeQuote recognises, in a query text whose literals are well-formed Go-style quoted
@@ -338,16 +357,14 @@ func feature(text string, focus string) string {
 	return "chars=" + charClasses(focus)
 }
 
-// worstValue picks the value with the most special character classes (used as focus when a case has
-// no designated focus value).
+// worstValue picks the value most likely to matter for quoting (used as focus when a case has no
+// designated focus value).
 func worstValue(vals []string) string {
+	rank := map[string]int{"invalid-utf8": 12, "unprintable": 11, "quote+backslash": 10, "backslash": 9, "quote": 8, "leading-or-trailing-space": 7,
+		"inner-space": 6, "paren": 5, "operator": 4, "non-ascii": 3, "digits": 2, "plain": 1, "empty": 0}
 	best, bestN := "", -1
 	for _, v := range vals {
-		n := strings.Count(charClasses(v), "+")
-		if strings.ContainsAny(v, `"\`) {
-			n += 10
-		}
-		if n > bestN {
+		if n := rank[charClasses(v)]; n > bestN {
 			best, bestN = v, n
 		}
 	}
